@@ -78,6 +78,26 @@ CHECKS = {
    text="State machine over pools of Monitor/VerboseMonitor/LoggingMonitor/VerboseLoggingMonitor with k in {None,1,-1,2,0.5,3}: record (lists/tuples/arrays, python/numpy scalars, 0-d arrays, vector costs, inf/nan/+-1e+-300, signed zeros, ids), extend, prepend, +, m[i], slices, index lists, min(): after every operation every monitor equals its list model (y exact for power-of-two k, ulp-bounded for k=3), results share nothing with operands, arguments are bit-unchanged. Log files written by the logging monitors (intervals 1-3, appended/truncated, ids, labels) are read back by logfile_reader/read_history to the same iterations/parameters/costs; write_raw_file/write_support_file/write_converge_file/write_monitor output is read back by the matching readers to the same trajectory, including the documented transpositions. Exploration only.",
    note="Trusted: the list model; float repr round trip. In-place self-combination (a.prepend(a)) is excluded (does not return). Six defects found by this check were repaired.",
    design="DESIGN.md section 5, C20"),
+ 'C11': dict(
+   technique="property-based testing (Hypothesis @given): generated monitor histories x tolerances x windows x masks in every accepted format, oracle = the documented collapse definition evaluated directly in Python floats; generated solver runs with Collapse* terminations, oracle = exact relation test on every recorded cost call after a collapse plus mask/termination bookkeeping",
+   text="Detector families (collapse_at, collapse_as, collapse_weight, collapse_position, collapse_cost): real Monitor instances are filled with engineered histories (flat, inside/on/just outside the tolerance, tied pairs with and without offset, product-measure layouts) and every detector result must equal the documented definition evaluated directly over the look-back window minus the mask, its own output as mask must yield nothing, malformed masks must raise, the Collapse* termination conditions must agree and mask.update_mask must grow the mask by exactly what was reported. Solver family: DE, Nelder-Mead and Powell on generated costs with flat coordinates and tied pairs under Or(ChangeOverGeneration, CollapseAt(None|scalar|list), CollapseAs): what Collapse() returns must be what the definition gives on the step monitor, masks grow by exactly that, successive collapses are disjoint, every later cost call and the final solution satisfy the applied relations exactly, and Solve returns within the generation budget. Exploration only.",
+   note="Trusted: the step monitor as the record of the history; collapse_cost is checked by a validity predicate (no cheap sample excluded) and idempotence, not by re-deriving its intervals; weight/position detectors only for rectangular measures. Five open known findings (collapses from separate Collapse() calls not merged; DE best predates the collapse; collapse_cost zero-width interval reported again; collapse_cost clip drops edge region; CollapseAs(offset=True) imposes +1); two defects found by this check were repaired (list target mis-paired, upper interval value+count).",
+   design="DESIGN.md section 5, C11"),
+ 'C12': dict(
+   technique="property-based testing (Hypothesis @given) with a grammar-level generator: constraint systems are generated as trees, rendered to mystic syntax and rewritten by simplify/solve/linear_symbolic/symbolic_bounds; oracle = the harness's own tree interpreter on the input versus an independent eval of mystic's output text at generated points (random, on-boundary, either side of every boundary, exact zero of every sign factor)",
+   text="simplify: systems of 1-4 lines over 1-5 variables (linear (in)equalities with any comparator and coefficient scale, rational relations whose direction depends on one variable factor, opposed pairs and bands), all naming schemes incl. indices >= 10 and name lists, options target/cycle/all: at every decided point the input holds iff some returned case holds (all=True) resp. the single returned case implies the input (all=False); systems of short dyadic numbers are compared exactly, including on the boundary and at the zero of a sign factor. solve: consistent full-rank (and redundant-row) linear systems built from a generated solution: every solution (generated one plus null-space shifts from numpy SVD) satisfies the solved form and every point of the solved form satisfies the system. linear_symbolic / symbolic_bounds: text holds exactly where A x = b, G x <= h resp. min <= x <= max hold, incl. None / inf / -0.0 / leading-zero values. Exploration only.",
+   note="Trusted: python eval and float arithmetic; relations are decided only at relative margin >= 1e-9 (nearer points skipped and counted) except in exact dyadic systems whose output is also dyadic; solve residual band 1e-9*max(1,cond). Calls that could reach solve()'s factorial fallback (>= 9 variables) run in a forked child with a timeout. Four open known findings (F10 zero factor dropped by the sign split; product vs zero ignores factor sign; unsolved line dropped; redundant equation gives an over-determined solved form); the opposed-lines defect found by this check was repaired (8064a4c).",
+   design="DESIGN.md section 5, C12"),
+ 'C13': dict(
+   technique="property-based testing (Hypothesis @given): generated isolated-form relations (expression trees rendered under several naming schemes) compiled with generate_constraint(generate_solvers(...)); oracle = the harness's tree interpreter evaluated at the returned vector",
+   text="A relation x_i <cmp> f(x_others) for all seven comparators, f from an expression grammar (exactly-rounded operators where strictness/equality is asserted, transcendental functions elsewhere), inputs as list and ndarray incl. exactly-on-the-boundary, one ulp either side and magnitudes to 1e15: the relation must hold at the output (strictly for < > !=), other coordinates must be bit-unchanged, feasible input (beyond the documented strictness tolerance) must be returned unchanged; systems of 2-4 relations with independent left-hand variables (and_/or_ joins) must hold jointly; boundsconstrain (symbolic and impose_bounds based, None/inf sides, pinned coordinates, no finite bound) must equal clip(x, min, max) and be the identity inside. Exploration only.",
+   note="Trusted: the tree interpreter; the documented strictness tolerance mystic.math.tolerance (inputs within it may legitimately be moved). Two defects found by this check were repaired (no finite bound crashed; pinned coordinate left unbounded).",
+   design="DESIGN.md section 5, C13"),
+ 'C14': dict(
+   technique="property-based testing (Hypothesis @given): generated constraint texts (1-5 lines, any comparator, >= 10 variables, named variables, locals) compiled with generate_conditions / generate_penalty; oracle = lhs - rhs from the harness's tree interpreter and the documented penalty sum; round trip penalty(constraint(x)) == 0",
+   text="Each generated condition function must equal lhs - rhs oriented so that <= 0 means satisfied (within the documented strictness tolerance for strict comparators), equalities must be 0 exactly when lhs == rhs; generate_penalty(...)(x) must equal the documented sum of per-line terms (k*h^n*f^2, factor 2 and max(0, .) for inequality types, every penalty type and join), be zero exactly where every line is satisfied and positive elsewhere; for isolated-form texts the constraint generated from the same text must drive the penalty to exactly zero. Exploration only.",
+   note="Trusted: the tree interpreter, mystic.penalty formulas (C15's subject), the documented strictness tolerance band.",
+   design="DESIGN.md section 5, C14"),
 }
 
 NOT_APPLICABLE = {}
